@@ -260,7 +260,7 @@ Section Bdf.
                     let cont := flat_map (fun i => nthf (nthv d2 0) i ::
                                                    map (fun k => if Nat.leb (S k) order then nthf (nthv d2 (S k)) i else zero O)
                                                        (seq 0 MAXO) ++ [ofnat O order]) (seq 0 n) in
-                    let '(cbs, fl, ycb) := cb (s_cb s) (x_new - h_signed) x_new y_new (Some (cont, x, h_signed)) in
+                    let '(cbs, fl, ycb) := cb (s_cb s) x x_new y_new (Some (cont, x, h_signed)) in
                     match fl with
                     | Interrupt => inr (mkR UserInterrupt (direction * h) st x_new ycb log (s_jaclog s) cbs)
                     | _ =>
